@@ -1,10 +1,325 @@
-//! C01 — not built yet.
-use crate::ev::Ctx;
-pub fn run(_ctx: &Ctx) -> i32 {
-    println!("INCONCLUSIVE property=C01 check not built yet");
-    2
+//! C01 — cross-format value fidelity.
+//!
+//! A model document is spelled in the source format (several hostile
+//! spellings), translated by xt (slice and scheduled reader, explicit and
+//! detected), and the output is read back by the harness's independent reader
+//! of the target format. The value read must equal the model value exactly
+//! (types, float bits, strings code point for code point, order), modulo TOML's
+//! permitted table reordering.
+
+use serde_json::{json, Value};
+
+use crate::ev::{self, Acc, Ctx, Finish, Violation};
+use crate::fmts::{self, Fmt, ALL};
+use crate::gen::{gen_doc, tomlify, Classes, GenOpts};
+use crate::known;
+use crate::model::{hex, preview, toml_match, unhex, Val};
+use crate::mon::Sched;
+use crate::read::read_stream;
+use crate::rng::Rng;
+use crate::run::{run_mode, Mode, Verdict};
+use crate::spell::{spell, Feats};
+
+fn case_json(input: &[u8], from: Option<Fmt>, src: Fmt, to: Fmt, mode: &Mode, doc: &Val) -> Value {
+    json!({
+        "input_hex": hex(input),
+        "input_preview": preview(input, 300),
+        "from": fmts::from_name(from),
+        "source_format": src.name(),
+        "to": to.name(),
+        "mode": mode.describe(),
+        "model_value": doc.show(),
+    })
 }
-pub fn replay(_case: &serde_json::Value) -> i32 {
-    println!("replay not built yet");
-    2
+
+/// The first differing node between the expected and the actual value.
+#[derive(Clone, Debug)]
+pub struct Diff {
+    pub path: String,
+    /// "value", "key", "length"
+    pub kind: &'static str,
+    pub expected: Option<Val>,
+    pub actual: Option<Val>,
+    pub note: String,
+}
+
+impl Diff {
+    pub fn show(&self) -> String {
+        match (&self.expected, &self.actual) {
+            (Some(e), Some(a)) => format!("{}: {} expected {} got {}", self.path, self.kind, ev::truncate(&e.show(), 120), ev::truncate(&a.show(), 120)),
+            _ => format!("{}: {}", self.path, self.note),
+        }
+    }
+    /// Shape of the difference without concrete values, for deduplication.
+    pub fn shape(&self) -> String {
+        fn ty(v: &Val) -> &'static str {
+            match v {
+                Val::Null => "null",
+                Val::Bool(_) => "bool",
+                Val::Int(_) => "int",
+                Val::Float(_) => "float",
+                Val::Str(_) => "str",
+                Val::Seq(_) => "seq",
+                Val::Map(_) => "map",
+                Val::Bytes(_) => "bytes",
+                Val::F32(_) => "f32",
+                Val::Datetime(_) => "datetime",
+                Val::Ext(..) => "ext",
+            }
+        }
+        match (&self.expected, &self.actual) {
+            (Some(e), Some(a)) => format!("{} expected <{}> got <{}>", self.kind, ty(e), ty(a)),
+            _ => self.note.split(':').next().unwrap_or("").to_string(),
+        }
+    }
+}
+
+pub fn first_diff(e: &Val, a: &Val, path: &mut String) -> Option<Diff> {
+    match (e, a) {
+        (Val::Seq(x), Val::Seq(y)) => {
+            if x.len() != y.len() {
+                return Some(Diff { path: path.clone(), kind: "length", expected: None, actual: None, note: format!("array length {} vs {}", x.len(), y.len()) });
+            }
+            for (i, (p, q)) in x.iter().zip(y).enumerate() {
+                let l = path.len();
+                path.push_str(&format!("[{i}]"));
+                if let Some(d) = first_diff(p, q, path) {
+                    return Some(d);
+                }
+                path.truncate(l);
+            }
+            None
+        }
+        (Val::Map(x), Val::Map(y)) => {
+            if x.len() != y.len() {
+                return Some(Diff { path: path.clone(), kind: "length", expected: None, actual: None, note: format!("map size {} vs {}", x.len(), y.len()) });
+            }
+            for (i, ((k1, v1), (k2, v2))) in x.iter().zip(y).enumerate() {
+                if k1 != k2 {
+                    return Some(Diff { path: format!("{path} key #{i}"), kind: "key", expected: Some(k1.clone()), actual: Some(k2.clone()), note: String::new() });
+                }
+                let l = path.len();
+                path.push_str(&format!(".{}", ev::truncate(&k1.show(), 30)));
+                if let Some(d) = first_diff(v1, v2, path) {
+                    return Some(d);
+                }
+                path.truncate(l);
+            }
+            None
+        }
+        _ => {
+            if e == a {
+                None
+            } else {
+                Some(Diff { path: path.clone(), kind: "value", expected: Some(e.clone()), actual: Some(a.clone()), note: String::new() })
+            }
+        }
+    }
+}
+
+/// Classifiers for recorded known findings of C01 (none may fire unless listed
+/// in known_findings.json).
+fn classify(diff: Option<&Diff>, _src: Fmt, to: Fmt) -> Option<&'static str> {
+    let d = diff?;
+    if to == Fmt::Yaml {
+        // A string spelled like a YAML 1.2 float whose magnitude overflows binary64
+        // ("1e400") is written unquoted and reads back as an infinite float.
+        if let (Some(Val::Str(s)), Some(Val::Float(b))) = (&d.expected, &d.actual) {
+            if f64::from_bits(*b).is_infinite() && matches!(crate::read::yaml::resolve_plain(s), Val::Float(x) if f64::from_bits(x).is_infinite()) && !s.contains("inf") && !s.contains("Inf") && !s.contains("INF") {
+                return Some("C01-yaml-overflowing-float-lookalike");
+            }
+        }
+    }
+    None
+}
+
+pub fn judge(input: &[u8], from: Option<Fmt>, src: Fmt, to: Fmt, mode: &Mode, doc: &Val, acc: &mut Acc) {
+    let o = run_mode(input, mode, from, to);
+    acc.evals += 1;
+    acc.count(&format!("pair_{}_{}", src.name(), to.name()));
+    let mut diff: Option<Diff> = None;
+    let problem = match &o.verdict {
+        Verdict::Ok if to == Fmt::Toml && o.out.is_empty() && *doc == Val::Map(vec![]) => None,
+        Verdict::Ok => match read_stream(to, &o.out) {
+            Err(e) => Some((format!("output unreadable by the independent {} reader: {e}; output [{}]", to.name(), preview(&o.out, 200)), "a readable document".to_string(), "unreadable output".to_string())),
+            Ok(docs) if docs.len() != 1 => Some((format!("{} documents in the output [{}]", docs.len(), preview(&o.out, 200)), "exactly one document".into(), "document count".into())),
+            Ok(docs) => {
+                let same = if to == Fmt::Toml { toml_match(doc, &docs[0]) } else { docs[0] == *doc };
+                if same {
+                    None
+                } else if to == Fmt::Toml {
+                    let d = crate::model::toml_diff(doc, &docs[0], "$").unwrap_or_else(|| "differs".into());
+                    let shape = if d.contains("entry order not permitted") { "toml entry order" } else if d.contains("key sets differ") { "toml key sets differ" } else { "toml value differs" };
+                    Some((format!("{d}; output [{}]", preview(&o.out, 200)), "the model value (modulo TOML's table reordering)".into(), shape.to_string()))
+                } else {
+                    diff = first_diff(doc, &docs[0], &mut String::from("$"));
+                    let (text, shape) = match &diff {
+                        Some(d) => (d.show(), d.shape()),
+                        None => ("differs".to_string(), "differs".to_string()),
+                    };
+                    Some((format!("{text}; output [{}]", preview(&o.out, 200)), "the model value".into(), shape))
+                }
+            }
+        },
+        v => Some((format!("translation did not succeed: {}", v.show()), "Ok".into(), mask(v.text()))),
+    };
+    if let Some((observed, expected, shape)) = problem {
+        if let Some(id) = classify(diff.as_ref(), src, to) {
+            if known::listed("C01", id) {
+                acc.known(id, || format!("{} -> {}: {}", src.name(), to.name(), ev::truncate(&observed, 160)));
+                return;
+            }
+        }
+        let sig = format!("{}->{} {} :: {}", src.name(), to.name(), if matches!(mode, Mode::Slice) { "slice" } else { "reader" }, ev::truncate(&shape, 90));
+        acc.violation(Violation { sig, case: case_json(input, from, src, to, mode, doc), observed, expected });
+    }
+}
+
+fn mask(s: &str) -> String {
+    // keep the shape of the message, drop concrete values
+    let mut o = String::new();
+    let mut in_num = false;
+    for c in s.chars().take(140) {
+        if c.is_ascii_digit() {
+            if !in_num {
+                o.push('#');
+            }
+            in_num = true;
+        } else {
+            in_num = false;
+            o.push(c);
+        }
+    }
+    o
+}
+
+fn detected_as(input: &[u8]) -> Option<Fmt> {
+    xt::verif::detect_slice(input).ok().flatten().map(Fmt::from_xt)
+}
+
+pub fn run(ctx: &Ctx) -> i32 {
+    let n = ctx.size(6000, 300000);
+    let seed = ctx.seed;
+    let acc = crate::par::run(n, 8, |i, acc| {
+        let mut rng = Rng::derive(seed, 0xc01, i as u64);
+        let mut cl = Classes::default();
+        let base = gen_doc(&mut rng, &GenOpts::common(), &mut cl);
+        let tdoc = tomlify(&base).or_else(|| {
+            let mut c2 = Classes::default();
+            Some(gen_doc(&mut rng, &GenOpts::toml(), &mut c2))
+        });
+        cl.add_to(acc);
+        let nontrivial = cl.hostile() > 0 || base.depth() >= 3;
+        if nontrivial {
+            acc.distinct(&base.show());
+        }
+        acc.sample_every(997, || json!({"model_value": ev::truncate(&base.show(), 300), "depth": base.depth(), "nodes": base.nodes()}));
+        for src in ALL {
+            for to in ALL {
+                let doc = if src == Fmt::Toml || to == Fmt::Toml {
+                    match &tdoc {
+                        Some(d) => d.clone(),
+                        None => continue,
+                    }
+                } else {
+                    base.clone()
+                };
+                acc.max("max_depth", doc.depth() as u64);
+                // spellings: one conventional, two hostile
+                for sp in 0..3 {
+                    let mut feats = Feats::default();
+                    let bytes = spell(src, &doc, &mut rng, &mut feats, sp == 0);
+                    for (k, v) in &feats.0 {
+                        acc.add(&format!("spelling_{k}"), *v as u64);
+                    }
+                    let modes = [Mode::Slice, Mode::Reader(match rng.below(4) {
+                        0 => Sched::One,
+                        1 => Sched::All,
+                        2 => Sched::Fixed(*rng.pick(&[2usize, 3, 7, 4096])),
+                        _ => Sched::Random(rng.next(), 16),
+                    })];
+                    let det = detected_as(&bytes);
+                    for mode in &modes {
+                        judge(&bytes, Some(src), src, to, mode, &doc, acc);
+                        if det == Some(src) {
+                            acc.count("detected_runs");
+                            judge(&bytes, None, src, to, mode, &doc, acc);
+                        }
+                    }
+                }
+            }
+        }
+        // non-finite floats for the formats that have them
+        if i % 4 == 0 {
+            let nf = Val::Map(vec![
+                (Val::s("nan"), Val::Float(f64::NAN.to_bits())),
+                (Val::s("pinf"), Val::Float(f64::INFINITY.to_bits())),
+                (Val::s("ninf"), Val::Float(f64::NEG_INFINITY.to_bits())),
+                (Val::s("seq"), Val::Seq(vec![Val::Float(f64::INFINITY.to_bits()), Val::Float(f64::NAN.to_bits())])),
+            ]);
+            for src in [Fmt::Msgpack, Fmt::Toml, Fmt::Yaml] {
+                for to in [Fmt::Msgpack, Fmt::Toml, Fmt::Yaml] {
+                    let mut feats = Feats::default();
+                    let bytes = spell(src, &nf, &mut rng, &mut feats, false);
+                    acc.count("nonfinite_float_docs");
+                    judge(&bytes, Some(src), src, to, &Mode::Slice, &nf, acc);
+                    judge(&bytes, Some(src), src, to, &Mode::Reader(Sched::Fixed(3)), &nf, acc);
+                }
+            }
+        }
+    });
+    let rule = format!(
+        "{} generated documents of the common model (scalar pools aimed at type look-alike strings, YAML indicators, control/BOM/non-character/astral code points, integer boundaries of every width, 17-digit and special floats; depth up to 64; wide collections at MessagePack header thresholds) x 16 (source,target) pairs (TOML pairs on the TOML-representable restriction) x 3 spellings (1 conventional, 2 hostile) x [slice, 1 scheduled reader] x [explicit, detected when the detect hook names the source format]; oracle = independent reader of the target; distinct non-trivial = distinct documents containing >= 1 hostile-class scalar or depth >= 3",
+        n
+    );
+    ev::finish(
+        Finish {
+            ctx,
+            level: "exploration",
+            rule,
+            assumptions: vec![
+                "independent readers: hand-written JSON and MessagePack decoders, libyaml events + own YAML 1.2 core-schema resolution, toml_edit document walk".into(),
+                "spellers validated against the readers at start-up (self-check)".into(),
+            ],
+            extra: serde_json::Map::new(),
+            exhaustive: false,
+            min_distinct: 200,
+            must_reach: vec![("detected_runs".into(), 100), ("class_lookalike_strings".into(), 50), ("class_float_values".into(), 50)],
+        },
+        acc,
+    )
+}
+
+pub fn replay(v: &Value) -> i32 {
+    let c = &v["case"];
+    let (Some(input), Some(from), Some(src), Some(to), Some(mode)) = (c["input_hex"].as_str().and_then(unhex), c["from"].as_str().and_then(fmts::parse_from), c["source_format"].as_str().and_then(Fmt::parse), c["to"].as_str().and_then(Fmt::parse), c["mode"].as_str().and_then(Mode::parse)) else {
+        println!("bad replay case");
+        return 2;
+    };
+    // the model value is recovered by reading the input with the independent reader of the source format
+    let doc = match read_source(src, &input) {
+        Ok(d) => d,
+        Err(e) => {
+            println!("cannot re-read the input with the independent reader: {e}");
+            return 2;
+        }
+    };
+    let o = run_mode(&input, &mode, from, to);
+    println!("input:  [{}]", preview(&input, 600));
+    println!("model:  {}", doc.show());
+    println!("from={} to={} mode={}", fmts::from_name(from), to.name(), mode.describe());
+    println!("xt:     {} out=[{}]", o.verdict.show(), preview(&o.out, 600));
+    let mut acc = Acc::default();
+    judge(&input, from, src, to, &mode, &doc, &mut acc);
+    if acc.vio_count > 0 {
+        println!("VIOLATION property=C01 replay=<this file> (reproduced): {}", acc.violations[0].observed);
+        1
+    } else {
+        println!("not reproduced (or a listed known finding)");
+        0
+    }
+}
+
+pub fn read_source(src: Fmt, input: &[u8]) -> Result<Val, String> {
+    crate::selfcheck::read_back(src, input)
 }
